@@ -110,13 +110,20 @@ def write_trace(path, events, extra=None):
         json.dump(d, fh)
 
 
-def e2e(argv_tail, files: dict[str, list[dict]], want_files=(), keep_dir=False):
+def e2e(argv_tail, files: dict[str, list[dict]], want_files=(), keep_dir=False, post=None, out_name="out.json",
+        in_dir=None):
     """Run the real Acelyzer API in-process.  `files`: name -> list of input events (written as
-    {"traceEvents": [...]}).  Returns dict(rc, error, events, other, outdir-files requested)."""
+    {"traceEvents": [...]}).  Returns dict(rc, error, events, other, outdir-files requested).
+    `post(ace)`: optional callback evaluated after a run that did not raise (e.g.
+    `lambda ace: ace.get_output_data()`); its value is returned as res["post"].
+    `out_name`: basename given to `-o`.  `in_dir`: run in this existing directory (never removed here)
+    instead of a fresh temporary one, so that two runs see identical input paths."""
     import aiu_trace_analyzer.logger as aiulog
     from aiu_trace_analyzer.core.acelyzer import Acelyzer
 
-    tmp = tempfile.mkdtemp(prefix="aiuverif_")
+    tmp = in_dir if in_dir is not None else tempfile.mkdtemp(prefix="aiuverif_")
+    if in_dir is not None:
+        keep_dir = True
     res = {"rc": None, "error": None, "events": None, "files": {}}
     try:
         paths = []
@@ -124,13 +131,15 @@ def e2e(argv_tail, files: dict[str, list[dict]], want_files=(), keep_dir=False):
             p = os.path.join(tmp, name)
             write_trace(p, evs)
             paths.append(p)
-        out = os.path.join(tmp, "out.json")
+        out = os.path.join(tmp, out_name)
         saved_argv = sys.argv
         sys.argv = ["acelyzer"]
         try:
             ace = Acelyzer(["-i", ",".join(paths), "-o", out, "-D", "0", *argv_tail])
             aiulog.loglevel = -1
             res["rc"] = ace.run()
+            if post is not None:
+                res["post"] = post(ace)
         except SystemExit as e:
             res["rc"] = e.code
             res["error"] = "SystemExit"
